@@ -135,17 +135,47 @@ Definition s_state (cfg : config) (s : state) : list string :=
   (List.app (map s_exchange (sort_by fst (exchanges s)))
    ["server m=" ++ sZ (srv_ready s) ++ "/" ++ sZ (srv_unacked s) ++ "/" ++ sZ (srv_total s)])).
 
+Definition is_tick (l : label) : bool := match l with LPersistTick => true | _ => false end.
+Fixpoint drain_but_store (cfg : config) (fx : fixes) (fuel : nat) (s : state) : state * list event :=
+  match fuel with
+  | O => (s, [])
+  | S f =>
+    match filter (fun l => negb (is_tick l)) (enabled_internal s) with
+    | [] => (s, [])
+    | l :: _ => let '(s1, e1) := step cfg fx s l in let '(s2, e2) := drain_but_store cfg fx f s1 in (s2, List.app e1 e2)
+    end
+  end.
+
 (* one script step: the client's frames, then internal labels to quiescence *)
 Definition run_step (cfg : config) (fx : fixes) (s : state) (ls : list label) : state * list event :=
   let '(s1, e1) := run cfg fx s ls in
   let '(s2, e2) := drain cfg fx 2000 s1 in
   (s2, List.app e1 e2).
 
+(* a step that is followed at once by a graceful stop: the harness waits until the request is handled and the
+   goroutine turns it enabled have run - everything but the store's tick - and then stops the broker, which must
+   write out what is pending (the stop is [LPersistTick; LRestart], Run/BrokerScript.v) *)
+Definition run_step_before_stop (cfg : config) (fx : fixes) (s : state) (ls : list label) : state * list event :=
+  let '(s1, e1) := run cfg fx s ls in
+  let '(s2, e2) := drain_but_store cfg fx 2000 s1 in
+  (s2, List.app e1 e2).
+
+Definition is_stop (ls : list label) : bool :=
+  match ls with [LPersistTick; LRestart] => true | _ => false end.
+Definition is_drop (ls : list label) : bool :=
+  match ls with [LSocketLoss _] => true | _ => false end.
+(* the steps that follow are connection drops and then the graceful stop *)
+Fixpoint stop_ahead (t : list (list label)) : bool :=
+  match t with
+  | nxt :: t' => is_stop nxt || (is_drop nxt && stop_ahead t')
+  | [] => false
+  end.
+
 Fixpoint run_session (cfg : config) (fx : fixes) (s : state) (script : list (list label))
   : list (list string * list string) :=
   match script with
   | [] => []
   | ls :: t =>
-    let '(s', evs) := run_step cfg fx s ls in
+    let '(s', evs) := if stop_ahead t then run_step_before_stop cfg fx s ls else run_step cfg fx s ls in
     (map s_event (by_conn evs), s_state cfg s') :: run_session cfg fx s' t
   end.
